@@ -419,7 +419,7 @@ Definition search_base (m : minfo) (fuel : nat) : outcome :=
   | Err e => Failed e
   end.
 
-Definition find_base (fuel : nat) : outcome :=
+Definition find_base_old (fuel : nat) : outcome :=
   match find fuel (s_root s1) (s_root s2) init_fstate with
   | Ok (false, _) => Nothing
   | Ok (true, st) => search_base (f_mi st) fuel
@@ -428,8 +428,8 @@ Definition find_base (fuel : nat) : outcome :=
   end.
 
 
-(* ---------------------------------------------------------------- the proposed repair
-   findings/second_search_shortcut.diff adds _maps_are_matched: a walk from the root pair along the
+(* ---------------------------------------------------------------- _maps_are_matched (since 97589e3)
+   a walk from the root pair along the
    recorded child orders; the rules assigned to every pair met must be a recorded matching of it.
    stack.pop() takes the last element and stack.extend appends: head of the list = top. *)
 Fixpoint walk (m : minfo) (d1 d2 : smap) (fuel : nat) (stack seen : list lpair) : res (bool * list lpair) :=
@@ -468,7 +468,7 @@ Definition checked (m : minfo) (wfuel : nat) (o : outcome) : outcome :=
   | o => o
   end.
 
-Definition find_base_fixed (fuel wfuel : nat) : outcome :=
+Definition find_base (fuel wfuel : nat) : outcome :=
   match find fuel (s_root s1) (s_root s2) init_fstate with
   | Ok (false, _) => Nothing
   | Ok (true, st) => checked (f_mi st) wfuel (search_base (f_mi st) fuel)
@@ -487,7 +487,7 @@ Definition qkey_eqb (a b : qkey) : bool :=
 Record estate : Type := mkE {
   e_sp1 : smap; e_sp2 : smap;
   e_cache : list (qkey * bool);
-  e_oracle : list (qkey * bool);   (* the answers EquivalenceRuleExtractor gives, by cache key *)
+  e_oracle : qkey -> option bool;  (* the answers EquivalenceRuleExtractor gives, by cache key (None: not replayed) *)
   e_log : list qkey;               (* keys asked, most recent first *)
   e_panc : list lpair              (* self._path_ancestors *)
 }.
@@ -508,7 +508,7 @@ Definition eq_path_matches (id1 id2 : nat) (pid : lpair) (st : estate) : res (bo
     match cache_get (e_cache st) k with
     | Some v => Ok (v, st)
     | None =>
-      match cache_get (e_oracle st) k with
+      match e_oracle st k with
       | None => Err E_ORACLE
       | Some v =>
         Ok (v, mkE (e_sp1 st) (e_sp2 st) ((k, v) :: e_cache st) (e_oracle st) (k :: e_log st) (e_panc st))
@@ -518,8 +518,8 @@ Definition eq_path_matches (id1 id2 : nat) (pid : lpair) (st : estate) : res (bo
   end.
 
 (* _validate_atoms_for_existing_entries (with _atom_path_match = True); mem is threaded through.
-   fx = false: the code as it is (an unrecorded combination is a KeyError);
-   fx = true : the code with the proposed repair findings/second_search_shortcut.diff (it answers False) *)
+   fx = true : the code as it is since 97589e3 (an unrecorded combination answers False);
+   fx = false: the form before 97589e3 (KeyError), kept for the refutation theorems (history) *)
 Fixpoint validate (fx : bool) (m : minfo) (fuel : nat) (id1 id2 : nat) (d1 d2 : smap) (mem : list lpair)
   : res (bool * list lpair) :=
   match fuel with
@@ -651,7 +651,7 @@ Fixpoint erec (fx : bool) (m : minfo) (fuel : nat) (pid : lpair) (id1 id2 : nat)
 
 Inductive eoutcome : Type := EOut (o : outcome) (asked : list qkey).
 
-Definition search_eq (fx : bool) (m : minfo) (fuel : nat) (oracle : list (qkey * bool)) : eoutcome :=
+Definition search_eq (fx : bool) (m : minfo) (fuel : nat) (oracle : qkey -> option bool) : eoutcome :=
   (* parent pairs are stored shifted by one: (0,0) stands for the initial path entry (-1,-1,-1,-1),
      (S p1, S p2) for the parent pair (p1, p2) *)
   let none := (0%nat, 0%nat) in
@@ -662,7 +662,7 @@ Definition search_eq (fx : bool) (m : minfo) (fuel : nat) (oracle : list (qkey *
   | Err e => EOut (Failed e) []
   end.
 
-Definition find_eq (fuel : nat) (oracle : list (qkey * bool)) : eoutcome :=
+Definition find_eq_old (fuel : nat) (oracle : qkey -> option bool) : eoutcome :=
   match find fuel (s_root s1) (s_root s2) init_fstate with
   | Ok (false, _) => EOut Nothing []
   | Ok (true, st) => search_eq false (f_mi st) fuel oracle
@@ -670,12 +670,77 @@ Definition find_eq (fuel : nat) (oracle : list (qkey * bool)) : eoutcome :=
   | Err e => EOut (Failed e) []
   end.
 
-Definition find_eq_fixed (fuel wfuel : nat) (oracle : list (qkey * bool)) : eoutcome :=
+(* ---------------------------------------------------------------- proposed repair of F-C13e
+   findings/eqpath_unvalidated_child_paths.diff overrides _maps_are_matched in EqPathParallelSpecFinder:
+   after the walk above, a second walk over the (parent pair -> child pair) edges of the two maps asks
+   _eq_path_matches (fresh cache) for every pair of children under the pair of parents it is reached from.
+   Elements of the stack: (pair, parent pair shifted by one as in search_eq).  The real `seen` also holds
+   the two child indices; the cache of _eq_path_matches ignores them, so visiting an edge again with other
+   indices asks nothing new and pushes nothing new. *)
+Definition edge := (lpair * lpair)%type.
+Definition edge_eqb (a b : edge) : bool := pair_eqb (fst a) (fst b) && pair_eqb (snd a) (snd b).
+Definition mem_edge (x : edge) (l : list edge) : bool := existsb (edge_eqb x) l.
+
+Fixpoint ewalk (m : minfo) (fuel : nat) (stack seen : list edge) (st : estate) : res (bool * estate) :=
+  match fuel with
+  | O => OutOfFuel
+  | S f =>
+    match stack with
+    | [] => Ok (true, st)
+    | ((a, b), rel) :: rest =>
+      if mem_edge ((a, b), rel) seen then ewalk m f rest seen st
+      else
+        let seen' := ((a, b), rel) :: seen in
+        match sm_get (e_sp1 st) a, sm_get (e_sp2 st) b with
+        | Some c1, Some c2 =>
+          match c1, c2 with
+          | [], [] => ewalk m f rest seen' st
+          | _, _ =>
+            match eq_path_matches a b rel st with
+            | Ok (true, st') =>
+              match inner_get (match mi_get m (a, b) with Some d => d | None => [] end) (c1, c2) with
+              | None => Ok (false, st')
+              | Some order =>
+                match child_pairs c1 c2 order with
+                | None => Err E_INDEX
+                | Some ps => ewalk m f (rev (map (fun p => (p, (S a, S b))) ps) ++ rest) seen' st'
+                end
+              end
+            | Ok (false, st') => Ok (false, st')
+            | OutOfFuel => OutOfFuel
+            | Err e => Err e
+            end
+          end
+        | _, _ => Ok (false, st)
+        end
+    end
+  end.
+
+Definition path_checked (m : minfo) (wfuel : nat) (oracle : qkey -> option bool) (o : outcome)
+  : outcome * list qkey :=
+  match o with
+  | Found d1 d2 =>
+    match ewalk m wfuel [((s_root s1, s_root s2), (0%nat, 0%nat))] [] (mkE d1 d2 [] oracle [] []) with
+    | Ok (true, st) => (Found d1 d2, rev (e_log st))
+    | Ok (false, st) => (Nothing, rev (e_log st))
+    | OutOfFuel => (NoFuel, [])
+    | Err e => (Failed e, [])
+    end
+  | o => (o, [])
+  end.
+
+(* pw = false: the code as it is; pw = true: with the proposed repair of F-C13e.
+   oracle answers _eq_path_matches during the search (partial label maps), woracle during the second walk
+   (fresh cache, final label maps: the same key may get another answer) *)
+Definition find_eq (pw : bool) (fuel wfuel : nat) (oracle woracle : qkey -> option bool) : eoutcome :=
   match find fuel (s_root s1) (s_root s2) init_fstate with
   | Ok (false, _) => EOut Nothing []
   | Ok (true, st) =>
     match search_eq true (f_mi st) fuel oracle with
-    | EOut o asked => EOut (checked (f_mi st) wfuel o) asked
+    | EOut o asked =>
+      let o1 := checked (f_mi st) wfuel o in
+      if pw then let '(o2, asked2) := path_checked (f_mi st) wfuel woracle o1 in EOut o2 (asked ++ asked2)
+      else EOut o1 asked
     end
   | OutOfFuel => EOut NoFuel []
   | Err e => EOut (Failed e) []
